@@ -39,6 +39,7 @@ type World struct {
 	cg      *callgraph.Graph
 	fnByObj map[*types.Func]*ssa.Function
 	LoadS   float64
+	strictChains bool
 	GoVer   string
 }
 
